@@ -92,40 +92,68 @@ Definition post_import (n : node) (s : st) : st :=
   end.
 
 (* ---- the traversal ------------------------------------------------------------------- *)
-(* [lower] = the node stands in expression position (visit_mut_expr fires on it) *)
+(* open recursion: [rec] is [visit] itself.  The boolean says whether the node stands in
+   expression position (visit_mut_expr fires on it) *)
+Definition visit_list_with (rec : bool -> node -> st -> node * st) (lw : bool)
+  : list node -> st -> list node * st :=
+  fix visit_list (l : list node) (s : st) {struct l} : list node * st :=
+    match l with
+    | [] => ([], s)
+    | x :: r => let '(x', s) := rec lw x s in
+                let '(r', s) := visit_list r s in (x' :: r', s)
+    end.
+
+(* JSX children and attributes: nested elements are visited but not lowered here *)
+Definition visit_jsx_list_with (rec : bool -> node -> st -> node * st)
+  : list node -> st -> list node * st :=
+  fix visit_jsx_list (l : list node) (s : st) {struct l} : list node * st :=
+    match l with
+    | [] => ([], s)
+    | x :: r =>
+        let '(x', s) :=
+          match x with
+          | JsxE _ _ _ _ _ _ => rec false x s
+          | JsxF _ => rec false x s
+          | JAttr nm (JsxE _ _ _ _ _ _ as v) => let '(v', s) := rec false v s in (JAttr nm v', s)
+          | JAttr nm (JsxF _ as v) => let '(v', s) := rec false v s in (JAttr nm v', s)
+          | _ => rec true x s
+          end in
+        let '(r', s) := visit_jsx_list r s in (x' :: r', s)
+    end.
+
+(* a Vec<Stmt>: visit_mut_stmts *)
+Definition visit_stmts_with (rec : bool -> node -> st -> node * st) (stmts : list node) (s : st)
+  : list node * st :=
+  let outer := s in
+  let s := enter_scope s in
+  let '(stmts', s) := visit_list_with rec true stmts s in
+  (pending_decls s ++ stmts', leave_scope outer s).
+
+(* fields of a SwitchCase: `consequent` is a Vec<Stmt> *)
+Definition visit_switch_fields_with (rec : bool -> node -> st -> node * st)
+  : list node -> st -> list node * st :=
+  fix go (l : list node) (s : st) {struct l} : list node * st :=
+    match l with
+    | [] => ([], s)
+    | Field k (NArr stmts) :: r =>
+        let '(stmts', s) :=
+          if sq "consequent" k then visit_stmts_with rec stmts s
+          else visit_list_with rec true stmts s in
+        let '(r', s) := go r s in (Field k (NArr stmts') :: r', s)
+    | x :: r => let '(x', s) := rec true x s in
+                let '(r', s) := go r s in (x' :: r', s)
+    end.
+
 Fixpoint visit (lower : bool) (n : node) (s : st) {struct n} : node * st :=
-  let visit_list :=
-    fix visit_list (lw : bool) (l : list node) (s : st) {struct l} : list node * st :=
-      match l with
-      | [] => ([], s)
-      | x :: r => let '(x', s) := visit lw x s in
-                  let '(r', s) := visit_list lw r s in (x' :: r', s)
-      end in
-  (* JSX children and attributes: nested elements are visited but not lowered here *)
-  let visit_jsx_list :=
-    fix visit_jsx_list (l : list node) (s : st) {struct l} : list node * st :=
-      match l with
-      | [] => ([], s)
-      | x :: r =>
-          let '(x', s) :=
-            match x with
-            | JsxE _ _ _ _ _ _ => visit false x s
-            | JsxF _ => visit false x s
-            | JAttr nm (JsxE _ _ _ _ _ _ as v) => let '(v', s) := visit false v s in (JAttr nm v', s)
-            | JAttr nm (JsxF _ as v) => let '(v', s) := visit false v s in (JAttr nm v', s)
-            | _ => visit true x s
-            end in
-          let '(r', s) := visit_jsx_list r s in (x' :: r', s)
-      end in
   match n with
   | JsxE name attrs sc ta children closing =>
-      let '(attrs', s) := visit_jsx_list attrs s in
+      let '(attrs', s) := visit_jsx_list_with visit attrs s in
       let '(attrs', s) := decouple_attrs attrs' s in
-      let '(children', s) := visit_jsx_list children s in
+      let '(children', s) := visit_jsx_list_with visit children s in
       let n' := JsxE name attrs' sc ta children' closing in
       if lower then lower_el E n' s else (n', s)
   | JsxF children =>
-      let '(children', s) := visit_jsx_list children s in
+      let '(children', s) := visit_jsx_list_with visit children s in
       let n' := JsxF children' in
       if lower then lower_el E n' s else (n', s)
   | JAttr nm v => let '(v', s) := visit true v s in (JAttr nm v', s)
@@ -145,7 +173,7 @@ Fixpoint visit (lower : bool) (n : node) (s : st) {struct n} : node * st :=
           (Assign op l' r', s)
       end
   | Arrow c params body a g tp rt =>
-      let '(params', s) := visit_list true params s in
+      let '(params', s) := visit_list_with visit true params s in
       let outer := s in
       let s := enter_scope s in
       let '(body', s) := visit true body s in
@@ -157,39 +185,16 @@ Fixpoint visit (lower : bool) (n : node) (s : st) {struct n} : node * st :=
       let s := leave_scope outer s in
       (Arrow c params' body'' a g tp rt, s)
   | Block c stmts =>
-      let outer := s in
-      let s := enter_scope s in
-      let '(stmts', s) := visit_list true stmts s in
-      let stmts'' := pending_decls s ++ stmts' in
-      (Block c stmts'', leave_scope outer s)
+      let '(stmts', s) := visit_stmts_with visit stmts s in (Block c stmts', s)
   | Call sy c f args ta =>
       let '(f', s) := visit true f s in
-      let '(args', s) := visit_list true args s in
+      let '(args', s) := visit_list_with visit true args s in
       hook_call (Call sy c f' args' ta) s
   | NObj fields =>
       if sq "SwitchCase" (ntype n) then
-        (* `consequent` is a Vec<Stmt>: visit_mut_stmts fires on it *)
-        let '(fields', s) :=
-          (fix go (l : list node) (s : st) {struct l} : list node * st :=
-             match l with
-             | [] => ([], s)
-             | Field k (NArr stmts) :: r =>
-                 if sq "consequent" k then
-                   let outer := s in
-                   let s := enter_scope s in
-                   let '(stmts', s) := visit_list true stmts s in
-                   let stmts'' := pending_decls s ++ stmts' in
-                   let s := leave_scope outer s in
-                   let '(r', s) := go r s in (Field k (NArr stmts'') :: r', s)
-                 else
-                   let '(v', s) := visit_list true stmts s in
-                   let '(r', s) := go r s in (Field k (NArr v') :: r', s)
-             | x :: r => let '(x', s) := visit true x s in
-                         let '(r', s) := go r s in (x' :: r', s)
-             end) fields s in
-        (NObj fields', s)
+        let '(fields', s) := visit_switch_fields_with visit fields s in (NObj fields', s)
       else
-        let '(fields', s) := visit_list true fields s in
+        let '(fields', s) := visit_list_with visit true fields s in
         let n' := NObj fields' in
         let ty := ntype n in
         if sq "ImportDeclaration" ty then (n', post_import n' s)
@@ -197,12 +202,12 @@ Fixpoint visit (lower : bool) (n : node) (s : st) {struct n} : node * st :=
         else if sq "TsInterfaceDeclaration" ty || sq "TsTypeAliasDeclaration" ty
         then (n', hook_ts_decl n' s)
         else (n', s)
-  | NArr l => let '(l', s) := visit_list true l s in (NArr l', s)
+  | NArr l => let '(l', s) := visit_list_with visit true l s in (NArr l', s)
   | Field k v => let '(v', s) := visit true v s in (Field k v', s)
   | BIdent sym c o t => let '(t', s) := visit true t s in (BIdent sym c o t', s)
-  | Arr elems => let '(e', s) := visit_list true elems s in (Arr e', s)
+  | Arr elems => let '(e', s) := visit_list_with visit true elems s in (Arr e', s)
   | Elem sp e => let '(e', s) := visit true e s in (Elem sp e', s)
-  | Obj props => let '(p', s) := visit_list true props s in (Obj p', s)
+  | Obj props => let '(p', s) := visit_list_with visit true props s in (Obj p', s)
   | KV k v => let '(k', s) := visit true k s in
               let '(v', s) := visit true v s in (KV k' v', s)
   | Computed e => let '(e', s) := visit true e s in (Computed e', s)
@@ -300,13 +305,7 @@ Definition transform_module (m : node) : node * st :=
   match m with
   | NObj [Field kt ty; Field kb (NArr items); interp] =>
       let s := search_pragmas (e_comments E) st0 in
-      let '(items', s) :=
-        (fix go (l : list node) (s : st) {struct l} : list node * st :=
-           match l with
-           | [] => ([], s)
-           | x :: r => let '(x', s) := visit true x s in
-                       let '(r', s) := go r s in (x' :: r', s)
-           end) items s in
+      let '(items', s) := visit_list_with visit true items s in
       let '(items'', s) := finish_module items' s in
       (NObj [Field kt ty; Field kb (NArr items''); interp], s)
   | _ => (m, st0)
